@@ -11,7 +11,9 @@
 From Coq Require Import List ZArith NArith Bool.
 From BBS Require Import Common.Sx Buffer.Source Buffer.Validate Buffer.Convert
   Buffer.StreamProofs Buffer.ValidateProofs Buffer.ConvertProofs
-  Buffer.ValidateReaderProofs Buffer.ReaderBufferProofs Buffer.ConvertProofs2 Buffer.OtherwiseProofs Run.R09.
+  Buffer.ValidateReaderProofs Buffer.ReaderBufferProofs Buffer.ConvertProofs2 Buffer.OtherwiseProofs Run.R09
+  Buffer.C09FullValidate Buffer.C09FullCombinators Buffer.C09FullReader Buffer.C09FullChunk
+  Buffer.C09FullReaderBuf Buffer.C09FullSizeFirst Buffer.C09FullComplete Buffer.C09FullMonitor Buffer.C09FullExtras.
 Import ListNotations.
 Open Scope N_scope.
 
@@ -134,31 +136,174 @@ Theorem reader_buffer_complete_implies_valid : forall H cfg fuel evs attach m o,
 Proof. exact ReaderBufferProofs.reader_complete_implies_valid. Qed.
 Print Assumptions reader_buffer_complete_implies_valid.
 
-(** The "otherwise" half at constructor level for IntoWriter, the method through
-    which partial data reaches the consumer: invalid content => an error, fewer
-    than [size] bytes written, sound callback verdicts; for chunk-reader buffers
-    also the code: the Source's when the source ends cleanly, else the source's
-    own I/O error or (content already too long) the Source's.
-    Full statement: the same for every method; proved for IntoWriter, the other
-    methods rest on the validator-level theorems [withhold], [callback_sound],
-    [failure_origin], [mismatch_code] above. *)
-Theorem chunk_reader_buffer_otherwise_partial : forall H cfg fuel evs o,
-  cas_chunk_reader H cfg fuel evs MIntoWriter = o -> o_err o <> EFuel ->
-  ((In true (o_cbs o) -> valid_script H cfg evs) /\ (In false (o_cbs o) -> ~ valid_script H cfg evs)) /\
-  (~ valid_script H cfg evs ->
-     o_err o <> ENone /\ (lenN (o_data o) < g_size cfg \/ o_data o = []) /\
-     (snd (content evs) = EEof -> o_err o = ECode (g_code cfg)) /\
-     (forall c, snd (content evs) = ECode c -> o_err o = ECode c \/ o_err o = ECode (g_code cfg))).
-Proof. exact chunk_into_writer_otherwise. Qed.
-Print Assumptions chunk_reader_buffer_otherwise_partial.
+(** * The "otherwise" half at constructor level, for EVERY consumption method
+    (ToByteSlice, IntoWriter, ReadAt, ToChunkReader at any offset and chunk
+    size, ToReader with any read sizes, CloneCopy + ToByteSlice on both copies;
+    Discard consumes nothing), every script, digest, hash function and fuel.
 
-Theorem reader_buffer_otherwise_partial : forall H cfg fuel evs attach o,
-  cas_reader H cfg fuel evs attach MIntoWriter = o -> o_err o <> EFuel ->
-  ((In true (o_cbs o) -> valid_script H cfg evs) /\ (In false (o_cbs o) -> ~ valid_script H cfg evs)) /\
-  (~ valid_script H cfg evs ->
-     o_err o <> ENone /\ (lenN (o_data o) < g_size cfg \/ o_data o = [])).
-Proof. exact reader_into_writer_otherwise. Qed.
-Print Assumptions reader_buffer_otherwise_partial.
+    (a) The integrity callback verdicts are sound — no hypothesis at all (not
+        even on fuel): never positive for mismatching content, never negative
+        for matching content. *)
+Theorem chunk_reader_buffer_callbacks_sound : forall H cfg fuel evs m,
+  (In true (o_cbs (cas_chunk_reader H cfg fuel evs m)) -> valid_script H cfg evs) /\
+  (In false (o_cbs (cas_chunk_reader H cfg fuel evs m)) -> ~ valid_script H cfg evs).
+Proof. exact chunk_callbacks_sound. Qed.
+Print Assumptions chunk_reader_buffer_callbacks_sound.
+
+Theorem reader_buffer_callbacks_sound : forall H cfg fuel evs attach m,
+  (In true (o_cbs (cas_reader H cfg fuel evs attach m)) -> valid_script H cfg evs) /\
+  (In false (o_cbs (cas_reader H cfg fuel evs attach m)) -> ~ valid_script H cfg evs).
+Proof. exact reader_callbacks_sound. Qed.
+Print Assumptions reader_buffer_callbacks_sound.
+
+(** (b) The error.  [expected_err cfg c t] is the error a consumer must see for
+    content [c] terminated by [t] that is not valid: content longer than the
+    digest's size => the Source's code (INVALID_ARGUMENT 3 for client-supplied,
+    INTERNAL 13 for backend data) whatever follows; otherwise a source I/O
+    error is passed through; a clean end (content too short, or of the right
+    size with the wrong hash) => the Source's code.  It is never a completion. *)
+Theorem expected_err_too_long : forall cfg c t,
+  g_size cfg < lenN c -> expected_err cfg c t = ECode (g_code cfg).
+Proof. exact C09FullValidate.expected_err_too_long. Qed.
+Print Assumptions expected_err_too_long.
+Theorem expected_err_io_first : forall cfg c x,
+  lenN c <= g_size cfg -> expected_err cfg c (ECode x) = ECode x.
+Proof. exact C09FullValidate.expected_err_io_first. Qed.
+Print Assumptions expected_err_io_first.
+Theorem expected_err_clean_end : forall cfg c, expected_err cfg c EEof = ECode (g_code cfg).
+Proof. exact C09FullValidate.expected_err_clean_end. Qed.
+Print Assumptions expected_err_clean_end.
+Theorem expected_err_is_error : forall cfg evs,
+  let e := expected_err cfg (fst (content evs)) (snd (content evs)) in
+  e <> ENone /\ e <> EEof /\ e <> EUnexp /\ e <> EFuel.
+Proof. exact expected_not_done. Qed.
+Print Assumptions expected_err_is_error.
+
+(** (c) Invalid content, parameters the method accepts ([bad_param] = false:
+    max >= size for ToByteSlice/CloneCopy, offset >= 0 for ReadAt, 0 <= offset
+    <= size for ToChunkReader), the model did not run out of fuel: the
+    consumer receives exactly [expected_err]; counted from the method's offset
+    it has received fewer than [size] bytes of the candidate (nothing at all
+    through the non-streaming methods). *)
+Theorem chunk_reader_buffer_otherwise : forall H cfg fuel evs m o,
+  m <> MDiscard -> cas_chunk_reader H cfg fuel evs m = o -> o_err o <> EFuel ->
+  ~ valid_script H cfg evs -> bad_param (g_size cfg) m = false ->
+  o_err o = expected_err cfg (fst (content evs)) (snd (content evs)) /\
+  (o_data o = [] \/ Z.to_N (m_off m) + lenN (o_data o) < g_size cfg) /\
+  (streams m = false -> o_data o = []).
+Proof. exact chunk_otherwise. Qed.
+Print Assumptions chunk_reader_buffer_otherwise.
+
+Theorem reader_buffer_otherwise : forall H cfg fuel evs attach m o,
+  m <> MDiscard -> cas_reader H cfg fuel evs attach m = o -> o_err o <> EFuel ->
+  ~ valid_script H cfg evs -> bad_param (g_size cfg) m = false ->
+  o_err o = expected_err cfg (fst (content evs)) (snd (content evs)) /\
+  (o_data o = [] \/ Z.to_N (m_off m) + lenN (o_data o) < g_size cfg) /\
+  (streams m = false -> o_data o = []).
+Proof. exact reader_otherwise. Qed.
+Print Assumptions reader_buffer_otherwise.
+
+(** (d) A parameter the method must reject is rejected with INVALID_ARGUMENT
+    before anything is read (whatever the content). *)
+Theorem chunk_reader_buffer_bad_param : forall H cfg fuel evs m o,
+  cas_chunk_reader H cfg fuel evs m = o -> o_err o <> EFuel -> bad_param (g_size cfg) m = true ->
+  o_err o = ECode 3 /\ o_data o = [] /\ o_cbs o = [] /\ o_aux o = [].
+Proof. exact chunk_bad_param. Qed.
+Print Assumptions chunk_reader_buffer_bad_param.
+
+Theorem reader_buffer_bad_param : forall H cfg fuel evs attach m o,
+  cas_reader H cfg fuel evs attach m = o -> bad_param (g_size cfg) m = true ->
+  o_err o = ECode 3 /\ o_data o = [] /\ o_cbs o = [] /\ o_aux o = [].
+Proof. exact reader_bad_param. Qed.
+Print Assumptions reader_buffer_bad_param.
+
+(** (e) The converse the monitor relies on: VALID content with accepted
+    parameters is never rejected — the call / stream completes (unless the
+    model runs out of fuel). *)
+Theorem chunk_reader_buffer_valid_completes : forall H cfg fuel evs m o,
+  m <> MDiscard -> cas_chunk_reader H cfg fuel evs m = o -> o_err o <> EFuel ->
+  valid_script H cfg evs -> bad_param (g_size cfg) m = false ->
+  completed m (o_err o) = true.
+Proof. exact chunk_valid_completes. Qed.
+Print Assumptions chunk_reader_buffer_valid_completes.
+
+Theorem reader_buffer_valid_completes : forall H cfg fuel evs attach m o,
+  m <> MDiscard -> cas_reader H cfg fuel evs attach m = o -> o_err o <> EFuel ->
+  valid_script H cfg evs -> bad_param (g_size cfg) m = false ->
+  completed m (o_err o) = true.
+Proof. exact reader_valid_completes. Qed.
+Print Assumptions reader_buffer_valid_completes.
+
+(** (f) After the end of the stream nothing more is handed out (any script,
+    valid or not): further reads of a ToChunkReader repeat the error and carry
+    no data; further reads of a ToReader carry no data. *)
+Theorem chunk_reader_buffer_chunk_reader_extras : forall H cfg fuel evs off max k,
+  let o := cas_chunk_reader H cfg fuel evs (MToChunkReader off max k) in
+  o_err o <> EFuel -> o_extra o = repeat (o_err o) k /\ o_aux o = [].
+Proof. exact chunk_to_chunk_reader_extras. Qed.
+Print Assumptions chunk_reader_buffer_chunk_reader_extras.
+Theorem reader_buffer_chunk_reader_extras : forall H cfg fuel evs attach off max k,
+  let o := cas_reader H cfg fuel evs attach (MToChunkReader off max k) in
+  o_err o <> EFuel -> o_extra o = repeat (o_err o) k /\ o_aux o = [].
+Proof. exact reader_to_chunk_reader_extras. Qed.
+Print Assumptions reader_buffer_chunk_reader_extras.
+Theorem chunk_reader_buffer_reader_extras : forall H cfg fuel evs caps k,
+  let o := cas_chunk_reader H cfg fuel evs (MToReader caps k) in
+  o_err o <> EFuel -> o_aux o = [].
+Proof. exact chunk_to_reader_extras. Qed.
+Print Assumptions chunk_reader_buffer_reader_extras.
+Theorem reader_buffer_reader_extras : forall H cfg fuel evs attach caps k,
+  let o := cas_reader H cfg fuel evs attach (MToReader caps k) in
+  o_err o <> EFuel -> o_aux o = [].
+Proof. exact reader_to_reader_extras. Qed.
+Print Assumptions reader_buffer_reader_extras.
+
+(** (g) NewCASBufferFromByteSlice validates eagerly: mismatching data => every
+    method fails with the Source's code, hands out nothing, one negative verdict. *)
+Theorem byte_slice_buffer_otherwise : forall H cfg fuel data m,
+  m <> MDiscard -> ~ (lenN data = g_size cfg /\ g_hash cfg = H data) ->
+  let o := cas_byte_slice H cfg fuel data m in
+  o_err o = ECode (g_code cfg) /\ o_data o = [] /\ o_aux o = [] /\ o_cbs o = [false].
+Proof. exact byte_slice_otherwise. Qed.
+Print Assumptions byte_slice_buffer_otherwise.
+
+(** * size_before_hash.  The hash function enters only through the comparison
+    with the digest's hash; the whole outcome (data, error, further reads,
+    callbacks, closes) is the same for any two hash functions that agree on
+    the complete content, and even that matters only for content that ends
+    with io.EOF and has exactly the digest's size.  So for content of the wrong
+    size, or ending in an I/O error, the hash is never consulted. *)
+Theorem chunk_reader_buffer_hash_only_at_content : forall H1 H2 cfg fuel evs,
+  (snd (content evs) = EEof -> lenN (fst (content evs)) = g_size cfg ->
+   H1 (fst (content evs)) = H2 (fst (content evs))) ->
+  forall m, cas_chunk_reader H1 cfg fuel evs m = cas_chunk_reader H2 cfg fuel evs m.
+Proof. exact chunk_hash_only_at_content. Qed.
+Print Assumptions chunk_reader_buffer_hash_only_at_content.
+
+Theorem reader_buffer_hash_only_at_content : forall H1 H2 cfg fuel evs,
+  (snd (content evs) = EEof -> lenN (fst (content evs)) = g_size cfg ->
+   H1 (fst (content evs)) = H2 (fst (content evs))) ->
+  forall attach m, cas_reader H1 cfg fuel evs attach m = cas_reader H2 cfg fuel evs attach m.
+Proof. exact reader_hash_only_at_content. Qed.
+Print Assumptions reader_buffer_hash_only_at_content.
+
+Theorem size_before_hash_chunk_reader : forall H1 H2 cfg fuel evs m,
+  ~ (snd (content evs) = EEof /\ lenN (fst (content evs)) = g_size cfg) ->
+  cas_chunk_reader H1 cfg fuel evs m = cas_chunk_reader H2 cfg fuel evs m.
+Proof. exact chunk_size_before_hash. Qed.
+Print Assumptions size_before_hash_chunk_reader.
+
+Theorem size_before_hash_reader : forall H1 H2 cfg fuel evs attach m,
+  ~ (snd (content evs) = EEof /\ lenN (fst (content evs)) = g_size cfg) ->
+  cas_reader H1 cfg fuel evs attach m = cas_reader H2 cfg fuel evs attach m.
+Proof. exact reader_size_before_hash. Qed.
+Print Assumptions size_before_hash_reader.
+
+Theorem size_before_hash_byte_slice : forall H1 H2 cfg fuel data m,
+  lenN data <> g_size cfg ->
+  cas_byte_slice H1 cfg fuel data m = cas_byte_slice H2 cfg fuel data m.
+Proof. exact byte_slice_size_before_hash. Qed.
+Print Assumptions size_before_hash_byte_slice.
 
 (** NewCASBufferFromByteSlice: every method. *)
 Theorem byte_slice_buffer_complete_implies_valid : forall H cfg fuel data m,
@@ -190,3 +335,68 @@ Example c09_withholds :
   cas_chunk_reader H cfg 40 [Chunk [1]; Chunk []; Chunk [2; 4]; Eof] (MToChunkReader 0 2 1)
   = mkOut [1] (ECode 13) [ECode 13] [false] 1 [].
 Proof. vm_compute. reflexivity. Qed.
+
+(** Non-vacuity of the "otherwise" theorems: invalid scripts with sane
+    parameters and enough fuel; the error is [expected_err]: an I/O error after
+    at most [size] bytes is passed through, after more than [size] bytes the
+    Source's code wins; with offset 1 fewer than size-1 bytes arrive. *)
+Example c09_io_error_first :
+  let H := lookup [([1; 2; 3], [9; 9])] in
+  let cfg := mkVcfg [9; 9] 3 13 in
+  let evs := [Chunk [1; 2]; Chunk [3]; Err 14] in
+  ~ valid_script H cfg evs /\ bad_param 3 (MToReader [2] 1) = false /\
+  expected_err cfg (fst (content evs)) (snd (content evs)) = ECode 14 /\
+  cas_reader H cfg 40 evs true (MToReader [2] 1) = mkOut [1; 2] (ECode 14) [ECode 14] [] 1 [].
+Proof. vm_compute. split; [intros (A & _); discriminate|auto]. Qed.
+Example c09_too_long_before_io_error :
+  let H := lookup [([1; 2; 3], [9; 9])] in
+  let cfg := mkVcfg [9; 9] 3 13 in
+  let evs := [Chunk [1; 2]; Chunk [3; 4]; Err 14] in
+  ~ valid_script H cfg evs /\
+  expected_err cfg (fst (content evs)) (snd (content evs)) = ECode 13 /\
+  cas_chunk_reader H cfg 40 evs (MToChunkReader 1 8 0) = mkOut [2] (ECode 13) [] [false] 1 [].
+Proof. vm_compute. split; [intros (A & _); discriminate|auto]. Qed.
+(** size before hash: content of the wrong size gives the same outcome for a
+    hash function under which it would match and one under which it would not. *)
+Example c09_size_before_hash :
+  let cfg := mkVcfg [9; 9] 3 3 in
+  let evs := [Chunk [1; 2]; Eof] in
+  cas_chunk_reader (fun _ => [9; 9]) cfg 40 evs MIntoWriter = mkOut [1; 2] (ECode 3) [] [false] 1 [] /\
+  cas_chunk_reader (fun _ => []) cfg 40 evs MIntoWriter = mkOut [1; 2] (ECode 3) [] [false] 1 [].
+Proof. vm_compute. auto. Qed.
+
+(** * The monitor never fires on the model: for every input (any sx, all three
+    constructors, every method) whose script error codes are genuine gRPC
+    error codes (positive) and on which the model did not run out of fuel,
+    all seven clauses of [mon09] are silent on the model's own output.
+    Full statement (no hypotheses) is FALSE in the sx encoding — see the two
+    witnesses below; kept as a comment:
+      forall inp, mon09 inp (run09 inp) = []. *)
+Theorem mon09_silent_on_model_partial : forall inp,
+  (forall x, In (Err x) (k_evs (dec_case inp)) -> (0 < x)%Z) ->
+  o_err (out09 inp) <> EFuel ->
+  mon09 inp (run09 inp) = [].
+Proof. exact mon09_silent_on_model. Qed.
+Print Assumptions mon09_silent_on_model_partial.
+
+(** Both hypotheses are necessary.  ToChunkReader with maximum chunk size 0
+    never ends (the normalizing reader hands out empty chunks for ever): the
+    model runs out of fuel and clause 3 fires on code -3.  A script error with
+    code 0 is passed through and reads as nil in an observation: clause 1. *)
+Example mon09_fires_without_fuel :
+  let inp := L [A 2; A 0; L [A 0; L [A 9]; A 1]; L [A 0; L [L [A 0; L [A 7]]; L [A 2]]];
+                L [A 3; A 0; A 0; A 0]; L [L [L [A 7]; L [A 9]]]] in
+  o_err (out09 inp) = EFuel /\ mon09 inp (run09 inp) = [3%Z].
+Proof. vm_compute. auto. Qed.
+Example mon09_fires_on_error_code_0 :
+  let inp := L [A 2; A 0; L [A 0; L [A 9]; A 1]; L [A 0; L [L [A 0; L [A 7]]; L [A 1; A 0]]];
+                L [A 0; A 5]; L [L [L [A 7]; L [A 9]]]] in
+  o_err (out09 inp) = ECode 0 /\ mon09 inp (run09 inp) = [1%Z].
+Proof. vm_compute. auto. Qed.
+(** non-vacuity: an input that meets both hypotheses *)
+Example mon09_silent_instance :
+  let inp := L [A 2; A 1; L [A 0; L [A 9]; A 1]; L [A 0; L [L [A 0; L [A 7]]; L [A 2]]];
+                L [A 3; A 0; A 4; A 1]; L [L [L [A 7]; L [A 9]]]] in
+  (forall x, In (Err x) (k_evs (dec_case inp)) -> (0 < x)%Z) /\ o_err (out09 inp) = EEof /\
+  run09 inp = L [L [A 7]; A (-1); L [A (-1)]; L [A 1]; A 1; L []].
+Proof. vm_compute. split; [intros x [Hx|[Hx|[]]]; discriminate|auto]. Qed.
